@@ -645,7 +645,13 @@ def _evaluate(ctx, d, case):
             key = "cli:match_template-failed:memmap+target-mask:read-only"
         ctx.spec("match_template.py runs", inp, False, log, key=key)
         return
-    data = load_pickle(case["out"])
+    try:
+        # (the check process is not in the directory the tool ran in: a result file must not depend on the reader's directory)
+        data = load_pickle(case["out"])
+    except Exception as e:  # noqa
+        ctx.spec("the result file written by the matching tool reloads", inp, False, f"{type(e).__name__}: {e}"[:300],
+                 key="cli:result-reload" + (":memmap" if opt.get("use_memmap") else ""))
+        return
     meta = data[-1] if isinstance(data, list) else None
     ctx.spec("result file holds the analyzer's four records followed by the metadata record, nothing else", inp,
              isinstance(data, list) and len(data) == 5, {"records": len(data) if isinstance(data, list) else type(data).__name__},
